@@ -126,3 +126,27 @@ def boundary_time_messages(rng, seq0=0):
         out.append(gen.frame(10000, bytes(p), seq0 + k))
     rng.shuffle(out)
     return out
+
+
+class verbose_logging:
+    """Everything the package logs - including its deepest trace levels - is switched on (and discarded) inside this block:
+    what a function returns must not depend on the log level. Forked indexer workers inherit the setting."""
+
+    def __enter__(self):
+        import logging
+        self.lg = logging.getLogger('point_one')
+        self.saved = (self.lg.level, self.lg.propagate, logging.root.manager.disable)
+        logging.disable(logging.NOTSET)
+        self.h = logging.NullHandler()
+        self.lg.addHandler(self.h)
+        self.lg.setLevel(1)
+        self.lg.propagate = False
+        return self
+
+    def __exit__(self, *a):
+        import logging
+        self.lg.removeHandler(self.h)
+        self.lg.setLevel(self.saved[0])
+        self.lg.propagate = self.saved[1]
+        logging.disable(self.saved[2])
+        return False
